@@ -64,9 +64,12 @@ Definition fault_kinds (p : package) : nat :=
   (if import_faultb p then 1 else 0) + (if ctor_faultb p then 1 else 0) +
   (if duplicate_namesb p || several_defaultsb p then 1 else 0).
 
-(* 0 = agreement; otherwise the first clause that differs *)
-Definition check_case (fms : bool) (p : package) (ops : list op) (o : obs) : nat :=
-  match discover fms p with
+(* 0 = agreement; otherwise the first clause that differs.  The layout is given
+   as what import_module(pkgname) did (observed by the harness before the
+   selector is constructed): the test on e.name is the model's *)
+Definition check_case (fms : bool) (pkgname : string) (imp : pkg_import) (ops : list op) (o : obs) : nat :=
+  let p := import_outcome pkgname imp in
+  match init fms pkgname imp with
   | Raised e _ =>
     if Nat.leb 2 (fault_kinds p)
     then (if Nat.eqb (o_err o) 0 then 1 else 0)
@@ -85,16 +88,16 @@ Definition check_case (fms : bool) (p : package) (ops : list op) (o : obs) : nat
       else 0
   end.
 
-Definition case := (bool * package * list op * obs)%type.
+Definition case := (bool * string * pkg_import * list op * obs)%type.
 
 Fixpoint bad_from (i : nat) (l : list case) : list nat :=
   match l with
   | [] => []
-  | (fms, p, ops, o) :: r =>
-    if Nat.eqb (check_case fms p ops o) 0 then bad_from (S i) r else i :: bad_from (S i) r
+  | (fms, n, p, ops, o) :: r =>
+    if Nat.eqb (check_case fms n p ops o) 0 then bad_from (S i) r else i :: bad_from (S i) r
   end.
 
 (* indices of disagreeing cases, and for those the differing clause *)
 Definition bad_indices (l : list case) : list nat := bad_from 0 l.
 Definition bad_clauses (l : list case) : list nat :=
-  filter (fun c => negb (Nat.eqb c 0)) (map (fun '(fms, p, ops, o) => check_case fms p ops o) l).
+  filter (fun c => negb (Nat.eqb c 0)) (map (fun '(fms, n, p, ops, o) => check_case fms n p ops o) l).
